@@ -59,6 +59,9 @@ CHECKS = {
  "C19": ("Lean theorems over the same client machine, for every scheduler: C19_no_crosstalk (a request only ever acts on the answer to itself), C19_never_wedged (no handler blocks, no request is stuck behind the mux), C19_next_request_starts, C19_late_answer_discarded (an answer arriving after its request returned changes nothing), C19_timeout_ends_wait; witnesses show each source fact is needed (the pre-fix machines wedge / cross-talk). Source facts regenerated by go/ast and checked by decide. Timed fault-injection scenarios (answers late by 6.5 s, lost, 2.5 s, in random patterns, on both peers) against the real servers are compared with the machine and judged directly (every update completes, acts on its own answer).",
          "Trusted: as C18. The microsecond race between timer and answer is covered by the model's scheduler and the source facts; timed runs keep 1.5 s clear of it (a search around the timeout runs only when the obligations break).",
          "Lean 4 invariant proof over a client state machine under every scheduler + regenerated source facts (decide) + fault-injection correspondence", "DESIGN.md §5 C19"),
+ "C11": ("Lean theorem C11 / C11_lock_released over a lock-discipline model: for every Lock() statement of the request path (list regenerated from the source by go/ast: deferred Unlock next, guarded idempotent deferred unlock, or straight-line simple statements; no calls before the unlock is guaranteed, no unguarded Unlock elsewhere, no re-lock; accepted shapes checked by decide) and for ANY rest of the function and ANY choice of panicking statements, the mutex is released exactly once - so no request, rejected, failed or panicking, leaves a subscriber blocked. Status half: C11_status_modelled (2xx/4xx only and 4xx without effect, for every input of the charging model) - partial: for raw bodies outside the model (members absent/null/mistyped, odd identifiers, all path parameters) it is decided by driving ~800 (thorough: all single and pair removals) raw requests through the real router, each followed by a well-formed update and release of the same subscriber under a 4 s deadline.",
+         "Trusted: Lean kernel; gin recovery modelled; the go/ast lock-site extractor; panics can only come from statements the extractor counts as calls/indexing; raw-request status behaviour is explored, not proved.",
+         "Lean 4 proof over a lock-discipline model for all continuations and panic points + regenerated lock sites (decide) + raw-request exploration with follow-up deadlines", "DESIGN.md §5 C11"),
 }
 PENDING_REASON = "check not built yet in this revision (work in progress; DESIGN.md plans a Lean model + correspondence check for it)"
 
